@@ -58,8 +58,15 @@ pub fn bad_bitmap_loop_unbounded(words: &[i32; 8], n: u32) -> u32 {
 }
 
 // D9 allocation
-pub fn good_alloc_clamped(n: usize, left: usize) -> Vec<u8> {
-    Vec::with_capacity(core::cmp::min(n, left))
+pub fn good_alloc_clamped(n: usize, buf: &[u8]) -> Vec<u8> {
+    Vec::with_capacity(core::cmp::min(n, buf.len()))
+}
+pub fn good_alloc_small_const_cap(n: u32) -> Vec<u8> {
+    Vec::with_capacity(n.min(256) as usize)
+}
+// a large constant cap is not a bound on memory: 65535 elements from a handful of received bytes
+pub fn bad_alloc_large_const_cap(n: u32) -> Vec<u64> {
+    Vec::with_capacity(n.min(u16::MAX as u32) as usize)
 }
 pub fn bad_alloc_wire_sized(n: u32) -> Vec<u8> {
     Vec::with_capacity(n as usize)
